@@ -36,12 +36,12 @@ CONSTANTS MaxFeats,         \* features per document
 
 Regs == {"parindent", "tolerance", "LTleft"}        \* two built-in parameters and one register defined by a package (longtable)
 Feats == {"assign_parindent", "assign_tolerance", "assign_LTleft", "use_parindent", "use_tolerance", "use_LTleft", "any", "math", "pmath", "list",
-          "listinput", "mathinput", "section", "printindex"}
+          "listinput", "mathinput", "section", "printindex", "eqstar", "eqarr", "defcolor", "usecolor"}
 Endings == {"end", "mathopen", "listopen", "boom", "ifraise"}
 Classes == {"article", "book"}
 
 InitW == [plevel |-> 0, math |-> 0, list |-> 0, dmath |-> FALSE, regs |-> [r \in Regs |-> "init"], idx |-> "chapter"]
-InitL == [regs |-> [r \in Regs |-> "none"], idx |-> "none", secfmt |-> "chaptered"]
+InitL == [regs |-> [r \in Regs |-> "none"], idx |-> "none", secfmt |-> "chaptered", color |-> "init"]
 
 RegOf(f) == IF f \in {"assign_parindent", "use_parindent"} THEN "parindent" ELSE IF f \in {"assign_LTleft", "use_LTleft"} THEN "LTleft" ELSE "tolerance"
 
@@ -71,6 +71,14 @@ Step(f, s) ==
               [s EXCEPT !.obs = Append(@, IF w.math = 0 THEN "math" ELSE "text")]
          [] f = "section" ->    \* the number of a section: the counter classes are made per document by the document class
               [s EXCEPT !.obs = Append(@, l.secfmt)]
+         [] f = "eqstar" ->     \* an unnumbered eqnarray*: nothing to observe, but it is the parent class of eqnarray
+              s
+         [] f = "eqarr" ->      \* eqnarray with two labelled rows: both rows carry a number
+              [s EXCEPT !.obs = Append(@, "rows2")]
+         [] f = "defcolor" ->   \* \definecolor{red}: the colour table belongs to the document (userdata)
+              [s EXCEPT !.l.color = "v1"]
+         [] f = "usecolor" ->   \* \textcolor{red}
+              [s EXCEPT !.obs = Append(@, l.color)]
          [] f = "printindex" -> \* the level the index is digested at
               [s EXCEPT !.obs = Append(@, IF l.idx # "none" THEN l.idx ELSE w.idx)]
 
